@@ -7,6 +7,15 @@
 // The grammar is built through the real SemanticGrammar<int>::add.
 // Reference: FIRST as bit sets {t0, t1, eps}, least fixpoint by FS_ROUNDS rounds of the textbook rules (constant loops); that the fixpoint is reached
 // within FS_ROUNDS rounds is itself asserted (as a bound of the reference, not as a claim).
+//
+// STATUS (measured, CBMC 6.11, flat container model): NOT part of the C13 verdict - this obligation does not finish.  first_sets is a
+// map<Symbol, set<Symbol>>; every access with a symbolic key is a nested selection among constant-index addresses (map slot, then set element), and
+// calculateFirstSets writes through references into those nested sets.  Results: full size and the reduced size (2 + 1 symbols): no end of symbolic
+// execution in 600 s; ONE alternative with ONE symbolic symbol and minimal capacities: no end of symbolic execution in 600 s; a fully concrete
+// grammar (everything constant-folds) with only first(X Y) symbolic: 147 000 steps, 25 M variables, 111 M clauses, no answer in 300 s.
+// lib/lrtv.py runs it only when VERIF_C13_FIRST_SYMBOLIC=<timeout in s> is set.  The verdict on FIRST comes from (a) the exhaustive native
+// comparison of the real calculateFirstSets/first with the textbook fixpoint on every enumerated grammar (lrtv.compare_first) and (b) the solver-side
+// containment check against the derivation table in harness/lr_parse.cpp (LR_CHECK_FIRST).
 #include <functional>
 #include <map>
 #include <set>
